@@ -34,6 +34,7 @@ def cases(seed, tier):
     out += [{"fam": "outbounds", "seed": [seed, 12, 10 ** 5 + i], "count": 2} for i in range(12 if q else 150)]
     out += [{"fam": "wide", "seed": [seed, 12, 3 * 10 ** 5 + i], "count": 3} for i in range(16 if q else 200)]
     out += [{"fam": "vanish", "seed": [seed, 12, 2 * 10 ** 5 + i], "count": 2} for i in range(12 if q else 150)]
+    out += [{"fam": "slip", "seed": [seed, 12, 4 * 10 ** 5 + i], "count": 3} for i in range(8 if q else 100)]
     if tier != "quick":
         out.append({"fam": "suite", "seed": [seed, 0, 0]})
     return out
@@ -87,7 +88,15 @@ def _one(rng, fam, mon, sigs, hist):
     from fv import env, dyn
     from fv.gen import scen, tissue, series
     import forsys as fs
-    if fam == "wide":
+    slip = None
+    if fam == "slip":
+        # a regular hexagonal tissue sheared along a line through one column of cells (only edges perpendicular to the line are
+        # cut, so the spacing across it stays above twice the motion) at 84..91 % of the bounds
+        nx, ny = int(rng.integers(5, 9)), int(rng.integers(4, 8))
+        at0 = tissue.lattice("hex", nx, ny)
+        col = int(rng.integers(1, nx - 1))
+        slip = dict(normal=1.0 + 0j, through=complex(col * 1.5, 0.0), frac=float(rng.uniform(0.84, 0.91)))
+    elif fam == "wide":
         # small tissues: the junction spacing is large compared with the extent, so the 8 % bound is the binding one
         at0 = scen.base_tissue(rng, ["vor", "arc", "lat-hex"][int(rng.integers(3))], ncells=int(rng.integers(8, 14)))
         if len(at0.cells) > 7:
@@ -95,14 +104,25 @@ def _one(rng, fam, mon, sigs, hist):
     else:
         at0 = scen.base_tissue(rng, ["vor", "arc"][int(rng.integers(2))], ncells=int(rng.integers(8, 60)))
         at0, _ = scen.maybe_sub(rng, at0, p=0.3, min_cells=4)
-    if rng.random() < 0.5:
+    if fam != "slip" and rng.random() < 0.5:
         at0 = at0.similarity(scale=10 ** rng.uniform(-1, 2), theta=rng.uniform(0, 6.28), shift=complex(*rng.uniform(-50, 50, 2)))
-    nfr = int(rng.integers(2, 7))
-    cm = bool(rng.random() < 0.4) and fam != "wide"
+    nfr = int(rng.integers(2, 7)) if fam != "slip" else int(rng.integers(2, 4))
+    cm = bool(rng.random() < 0.4) and fam not in ("wide", "slip")
     frac = 0.6 if fam != "outbounds" else float(rng.uniform(1.5, 4.0))
     if cm:
         frac *= 0.5
-    ats = dyn.random_series(rng, at0, nfr, frac=frac, wide=(fam == "wide"))
+    if fam == "slip":
+        ats = [at0]
+        for _t in range(1, nfr):
+            ats.append(series.moved(ats[-1], series.slip_field(rng, ats[-1], slip["frac"], slip["normal"], slip["through"])))
+            slip["through"] = slip["through"] + 0   # the line stays where it is; both parts keep sliding
+        # the whole series in an arbitrary pose: quarter turns keep the line parallel to an axis (the tie-break then depends on
+        # the metric), other angles do not
+        th = float(rng.integers(4)) * np.pi / 2 if rng.random() < 0.6 else float(rng.uniform(0, 2 * np.pi))
+        sc, sh = float(10 ** rng.uniform(-1, 2)), complex(*rng.uniform(-50, 50, 2))
+        ats = [x.similarity(scale=sc, theta=th, shift=sh * sc) for x in ats]
+    else:
+        ats = dyn.random_series(rng, at0, nfr, frac=frac, wide=(fam == "wide"))
     if fam == "vanish":
         # one frame loses a border cell: its private junctions have no successor / predecessor
         jc = ats[0].jcells()
@@ -115,15 +135,18 @@ def _one(rng, fam, mon, sigs, hist):
             comp = max(ats[t_v].components(keep), key=len)
             ats[t_v] = ats[t_v].sub(comp)
     times = np.cumsum(rng.uniform(0.2, 3.0, nfr)) * 10 ** rng.uniform(-2, 2)
-    gmode = ["none", "none", "partial", "wrong"][int(rng.integers(4))] if fam != "vanish" else "none"
+    gmode = ["none", "none", "partial", "wrong", "shared"][int(rng.integers(5))] if fam != "vanish" else "none"
     with env.Capture() as cap:
         s = dyn.build(rng, ats, times, k=int(rng.integers(0, 5)), relabel=True)
         guess = {}
         wrong_keys = {}
-        if gmode != "none":
+        if gmode == "shared":
+            # dict.fromkeys(range(n), {}): ONE (empty) dictionary object given for every step
+            guess = dict.fromkeys(range(nfr), {})
+        elif gmode != "none":
             for t in range(nfr):
                 guess[t] = {}
-            for t in range(nfr - 1):
+            for t in range(nfr - 1 if gmode != "shared" else 0):
                 tm = dyn.truth_map(s, t, t + 1)
                 ends = series.end_points(ats[t])
                 ids = [s.rs[t].jmap[j] for j in ends if s.rs[t].jmap[j] in tm]
@@ -160,7 +183,7 @@ def _one(rng, fam, mon, sigs, hist):
         for j in a1.J:
             vv = s.frames[t + 1].vertices[s.rs[t + 1].jmap[j]]
             a1.J[j] = complex(vv.x, vv.y)
-        q, ok = series.motion_bounds(a0, a1)
+        q, ok = series.motion_bounds(a0, a1, margin=0.995 if fam == "slip" else 0.9)
         m = mesh.mapping.get(t)
         if m is None:
             if ok:
@@ -172,6 +195,8 @@ def _one(rng, fam, mon, sigs, hist):
             hist["pair-out-of-bounds"] = hist.get("pair-out-of-bounds", 0) + 1
             inb_all = inb_all and ok
             continue
+        if fam == "slip":
+            hist["slip:pairs-in-bounds"] = hist.get("slip:pairs-in-bounds", 0) + 1
         tm = dyn.truth_map(s, t, t + 1)
         ends0 = set(series.end_points(ats[t]))
         ends1 = set(series.end_points(ats[t + 1]))
